@@ -4,11 +4,15 @@ Relates runs of the real code (no cost oracle is needed - C02 has it):
   A  slice   : volume(interval i) == planes of volume(interval o) for every nested pair i c o within [-3,3]
                (matching-cost step as the machine runs it, with and without cbca aggregation)
   B  grid    : per-pixel grids: same cost as the scalar global interval inside the pixel's interval, NaN outside;
-               constant grids == scalar interval (cost volume, disparity axis, validity mask)
+               constant grids == scalar interval (cost volume, disparity axis, validity mask).  The grids are float32
+               rasters and may lie off the sampling step (min=-1.3, max=1.7 ...): a sample d of the reported axis
+               (cv.coords['disp']) is inside iff min(r,c) <= d <= max(r,c); the scalar run it is compared with spans the
+               reported axis; no particular axis is demanded for fractional grids (only multiples of 1/subpix)
   C  pipeline: pandora.run of single-scale pipelines: disparity_interval stored after the disparity step == interval
                searched; valid pixels (validity_mask & 0b01111000011 == 0) inside their own interval right after the
                disparity and refinement steps, and inside the global interval at the end (left map; right map against
-               the right interval under a separate clause)
+               the right interval under a separate clause); with fractional grids the interval searched is read on the
+               cost volume after the matching-cost step and the intervals are compared as real numbers
 """
 import copy
 import logging
@@ -18,7 +22,7 @@ import numpy as np
 import xarray as xr
 
 from bounded.common import Recorder
-from bounded.C02 import make_dataset, real_chain, planes_of, INTERVALS, METHOD_WINDOWS
+from bounded.C02 import make_dataset, real_chain, planes_of, INTERVALS, METHOD_WINDOWS, is_integer_grid, fractional_grids, N_FRACTIONAL_KINDS
 
 INVALID_BITS = 0b01111000011
 FILLED_OCC, FILLED_MIS = 1 << 4, 1 << 5
@@ -63,6 +67,8 @@ def run_pipeline(L, R, mL, mR, disp, pipeline):
             super().run(input_step, cfg)
             if self.snaps is None:
                 self.snaps = {}
+            if input_step.split(".")[0] == "matching_cost" and self.left_cv is not None:
+                self.snaps["cv_axis"] = np.asarray(self.left_cv.coords["disp"].data, dtype=np.float64).copy()
             ds = self.left_disparity
             if ds is not None and "disparity_map" in ds:
                 self.snaps[input_step] = (ds["disparity_map"].data.copy(), ds["validity_mask"].data.copy(),
@@ -162,29 +168,50 @@ def check_grid(inp):
     L, R = np.asarray(inp["left"]), np.asarray(inp["right"])
     mL = None if inp.get("msk_left") is None else np.asarray(inp["msk_left"])
     mR = None if inp.get("msk_right") is None else np.asarray(inp["msk_right"])
-    gmin, gmax = np.asarray(inp["gmin"]).astype(int), np.asarray(inp["gmax"]).astype(int)
+    g32min, g32max = np.asarray(inp["gmin"], dtype=np.float32), np.asarray(inp["gmax"], dtype=np.float32)  # what the real code is given
+    gmin, gmax = g32min.astype(np.float64), g32max.astype(np.float64)
+    fractional = not (is_integer_grid(gmin) and is_integer_grid(gmax))
     cfg, s = mc_cfg_of(inp["method"], inp["window"], inp["subpix"]), int(inp["subpix"])
     tag = "%s%s" % (inp["method"], "-cbca" if inp["agg"] else "")
-    glob = (int(gmin.min()), int(gmax.max()))
     try:
-        dg, vg, mg = cost_volume(L, R, mL, mR, (gmin.astype(np.float32), gmax.astype(np.float32)), cfg, inp["agg"])
+        dg, vg, mg = cost_volume(L, R, mL, mR, (g32min, g32max), cfg, inp["agg"])
+        if fractional:  # the scalar interval spanning the axis that the real volume reports
+            glob = (int(np.floor(dg[0])), int(np.ceil(dg[-1])))
+        else:
+            glob = (int(gmin.min()), int(gmax.max()))
         ds_, vs, ms = cost_volume(L, R, mL, mR, glob, cfg, inp["agg"])
     except Exception as e:  # pylint: disable=broad-except
         return False, [], type(e).__name__
     viol = []
-    exp = np.array(planes_of(glob[0], glob[1], s))
-    if dg.shape != exp.shape or not np.array_equal(dg, exp):
-        viol.append(("C09.range", "grid-subpix%d" % s, "disparity axis %s for grids spanning %s, expected %s" % (dg.tolist(), list(glob), exp.tolist())))
-        return True, viol, None
-    constant = bool((gmin == gmin.flat[0]).all() and (gmax == gmax.flat[0]).all())
+    if fractional:
+        # nothing is demanded about which samples the axis holds, except that they are samples (multiples of 1/subpix)
+        # of the scalar axis, so that "the scalar-interval cost" exists for each of them
+        exp = dg
+        pos = np.searchsorted(ds_, dg)
+        if dg.size == 0 or (pos >= ds_.size).any() or not np.array_equal(ds_[np.minimum(pos, ds_.size - 1)], dg) or not (np.diff(dg) > 0).all():
+            viol.append(("C09.range", "fractional-grid-subpix%d" % s, "disparity axis %s for fractional grids is not made of increasing samples of "
+                         "the scalar axis %s" % (dg.tolist(), ds_.tolist())))
+            return True, viol, None
+        vs = vs[:, :, pos]
+    else:
+        exp = np.array(planes_of(glob[0], glob[1], s))
+        if dg.shape != exp.shape or not np.array_equal(dg, exp):
+            viol.append(("C09.range", "grid-subpix%d" % s, "disparity axis %s for grids spanning %s, expected %s" % (dg.tolist(), list(glob), exp.tolist())))
+            return True, viol, None
+    uniform = bool((gmin == gmin.flat[0]).all() and (gmax == gmax.flat[0]).all())
+    constant = uniform and not fractional  # only then is there a scalar interval that the grids are "equivalent" to as a whole
     inside = (exp[None, None, :] >= gmin[:, :, None]) & (exp[None, None, :] <= gmax[:, :, None])
     leak = ~inside & ~np.isnan(vg)
     if leak.any():
         r, c, k = (int(x) for x in np.argwhere(leak)[0])
-        viol.append(("C09.grid.outside", tag, "cost %r at (row %d, col %d, d=%s) outside the pixel's interval [%d,%d]"
-                     % (float(vg[r, c, k]), r, c, exp[k], gmin[r, c], gmax[r, c])))
-    if not inp["agg"] or constant:
+        below = bool(exp[k] < gmin[r, c])
+        bound = gmin[r, c] if below else gmax[r, c]
+        viol.append(("C09.grid.outside", tag + ("" if bound == round(bound) else ("-below-fractional-min" if below else "-above-fractional-max")),
+                     "cost %r at (row %d, col %d, d=%s) outside the pixel's interval [%r,%r]"
+                     % (float(vg[r, c, k]), r, c, exp[k], float(gmin[r, c]), float(gmax[r, c]))))
+    if not inp["agg"] or uniform:
         # with aggregation a neighbour's NaN legitimately changes the aggregate, the statement is about the matching costs
+        # (when every pixel has the same interval whole planes are NaN and the other planes aggregate as in the scalar run)
         diff = inside & ~((vg == vs) | (np.isnan(vg) & np.isnan(vs)))
         if diff.any():
             r, c, k = (int(x) for x in np.argwhere(diff)[0])
@@ -248,9 +275,12 @@ def check_pipeline(inp):
         disp = (a, b)
         gmin, gmax = np.full(L.shape, a), np.full(L.shape, b)
     else:
-        gmin, gmax = np.asarray(inp["gmin"]).astype(int), np.asarray(inp["gmax"]).astype(int)
-        disp = (gmin.astype(np.float32), gmax.astype(np.float32))
-    lo, hi = int(gmin.min()), int(gmax.max())
+        g32min, g32max = np.asarray(inp["gmin"], dtype=np.float32), np.asarray(inp["gmax"], dtype=np.float32)
+        disp = (g32min, g32max)
+        gmin, gmax = g32min.astype(np.float64), g32max.astype(np.float64)
+    fractional = not (is_integer_grid(gmin) and is_integer_grid(gmax))
+    # requested global interval (real numbers); for integer intervals it is also the interval that must be searched
+    lo, hi = float(gmin.min()), float(gmax.max())
     pipeline = inp["pipeline"]
     try:
         left, right, snaps = run_pipeline(L, R, mL, mR, disp, pipeline)
@@ -258,10 +288,13 @@ def check_pipeline(inp):
         return False, [], "%s in %s" % (type(e).__name__, describe(pipeline))
     viol = []
     desc = describe(pipeline)
-    # stored interval == interval searched, right after the disparity step and at the end
+    # stored interval == interval searched, right after the disparity step and at the end.  With fractional grids the interval
+    # searched is the one spanned by the disparity axis of the cost volume after the matching-cost step (no axis is demanded)
+    slo, shi = (float(snaps["cv_axis"][0]), float(snaps["cv_axis"][-1])) if fractional else (lo, hi)
     for where, itv in (("disparity", snaps["disparity"][2]), ("final", np.asarray(left["disparity_interval"].data, dtype=np.float64))):
-        if itv.shape != (2,) or float(itv[0]) != lo or float(itv[1]) != hi:
-            viol.append(("C09.stored", "after-" + where, "disparity_interval %s, searched interval [%d,%d]" % (itv.tolist(), lo, hi)))
+        if itv.shape != (2,) or float(itv[0]) != slo or float(itv[1]) != shi:
+            viol.append(("C09.stored", "after-" + where + ("-fractional-grids" if fractional else ""),
+                         "disparity_interval %s, searched interval [%r,%r]" % (itv.tolist(), slo, shi)))
     # per-pixel interval right after disparity and refinement
     for step in ("disparity", "refinement"):
         if step in snaps:
@@ -270,8 +303,8 @@ def check_pipeline(inp):
             if bad.any():
                 r, c = (int(x) for x in np.argwhere(bad)[0])
                 viol.append(("C09.pixel." + step, "nan" if np.isnan(d[r, c]) else "outside-own-interval",
-                             "%s: after %s, valid pixel (row %d, col %d, mask %d) has disparity %r outside its interval [%d,%d]"
-                             % (desc, step, r, c, int(m[r, c]), float(d[r, c]), gmin[r, c], gmax[r, c])))
+                             "%s: after %s, valid pixel (row %d, col %d, mask %d) has disparity %r outside its interval [%r,%r]"
+                             % (desc, step, r, c, int(m[r, c]), float(d[r, c]), float(gmin[r, c]), float(gmax[r, c]))))
     # final map, global interval
     interp = pipeline.get("validation", {}).get("interpolated_disparity")
     for side, ds, (slo, shi) in (("left", left, (lo, hi)), ("right", right, (-hi, -lo))):
@@ -289,7 +322,7 @@ def check_pipeline(inp):
                 last = [s for s in ("refinement", "filter", "validation") if s in pipeline]
                 clause = "C09.final" + ("" if side == "left" else ".right")
                 wclass = ("nan" if np.isnan(d[r, c]) else "outside") + "-after-" + (last[-1] if last else "disparity")
-            viol.append((clause, wclass, "%s: %s map, valid pixel (row %d, col %d, mask %d) has final disparity %r outside the requested interval [%d,%d]"
+            viol.append((clause, wclass, "%s: %s map, valid pixel (row %d, col %d, mask %d) has final disparity %r outside the requested interval [%r,%r]"
                          % (desc, side, r, c, int(m[r, c]), float(d[r, c]), slo, shi)))
     nvalid = int(((left["validity_mask"].data & INVALID_BITS) == 0).sum())
     return nvalid > 0, viol, None
@@ -343,6 +376,7 @@ def slice_inputs(tier, seed):
 def grid_inputs(tier, seed):
     rng = np.random.default_rng(seed + 1)
     rounds = 3 if tier == "quick" else 40
+    nfrac = seed  # kind of fractional grids, cycling
     for n in range(rounds):
         for (m, w) in METHOD_WINDOWS:
             for s in (1, 2, 4):
@@ -362,6 +396,11 @@ def grid_inputs(tier, seed):
                 if n % 4 == 3:
                     inp["msk_left"], inp["msk_right"] = _mask(rng, (ny, nx), 0.05).tolist(), _mask(rng, (ny, nx), 0.05).tolist()
                 yield inp
+                # the same images and masks with float32 grids off the sampling step (bounded.C02.fractional_grids, kinds by turns)
+                finp = dict(inp)
+                finp["gmin"], finp["gmax"] = fractional_grids(rng, ny, nx, nfrac)
+                nfrac += 1
+                yield finp
 
 
 FIXED_PIPELINES = [
@@ -396,6 +435,14 @@ def pipeline_inputs(tier, seed):
         if n % 5 == 4:  # per-pixel grids (constant by blocks of columns so that neighbours mostly agree)
             a, b = rng.integers(-3, 4, size=(1, nx)), rng.integers(-3, 4, size=(1, nx))
             inp["gmin"], inp["gmax"] = np.repeat(np.minimum(a, b), ny, 0).tolist(), np.repeat(np.maximum(a, b), ny, 0).tolist()
+        elif n % 5 == 2:  # float32 per-pixel grids off the sampling step
+            if (n // 5) % 2 == 0:  # column-wise: integer interval widened / shrunk by an off-step amount on each side
+                a, b = rng.integers(-3, 4, size=(1, nx)), rng.integers(-3, 4, size=(1, nx))
+                ea, eb = rng.choice([-0.7, -0.3, 0.0, 0.3, 0.45], size=(1, nx)), rng.choice([-0.45, -0.3, 0.0, 0.3, 0.7], size=(1, nx))
+                gmin, gmax = (np.minimum(a, b) + ea).astype(np.float32), (np.maximum(a, b) + 1 + eb).astype(np.float32)
+                inp["gmin"], inp["gmax"] = np.repeat(gmin, ny, 0).tolist(), np.repeat(gmax, ny, 0).tolist()
+            else:
+                inp["gmin"], inp["gmax"] = fractional_grids(rng, ny, nx, n // 10)
         else:
             inp["interval"] = list(INTERVALS[(n * 5 + seed) % len(INTERVALS)])
         if n % 3 == 2:
@@ -417,9 +464,12 @@ def run(tier, seed):
     import pandora  # noqa: F401  pylint: disable=unused-import,import-outside-toplevel  (slow import, counted in the budget)
 
     remaining = (72 if quick else 1000) - (time.time() - t_run)
-    t_slice, t_grid, t_pipe = 0.42 * remaining, 0.10 * remaining, 0.48 * remaining
+    t_slice, t_grid, t_pipe = 0.38 * remaining, 0.16 * remaining, 0.46 * remaining
     skipped = {}
-    counts = {"slice": 0, "grid": 0, "pipeline": 0}
+    counts = {"slice": 0, "grid": 0, "pipeline": 0, "grid-fractional": 0, "pipeline-fractional": 0}
+
+    def fractional(inp):
+        return inp.get("gmin") is not None and not (is_integer_grid(inp["gmin"]) and is_integer_grid(inp["gmax"]))
 
     def emit(inp, viols, extra=None):
         for clause, wclass, msg in viols:
@@ -452,7 +502,11 @@ def run(tier, seed):
             skipped["grid: " + skip] = skipped.get("grid: " + skip, 0) + 1
             continue
         counts["grid"] += 1
-        rec.case(key=_key(inp), nontrivial=nontrivial, sample=None)
+        counts["grid-fractional"] += int(fractional(inp))
+        rec.case(key=_key(inp), nontrivial=nontrivial,
+                 sample={"kind": "grid", "method": inp["method"], "window": inp["window"], "subpix": inp["subpix"], "cbca": inp["agg"],
+                         "shape": list(np.shape(inp["left"])), "gmin_row0": inp["gmin"][0], "gmax_row0": inp["gmax"][0]}
+                 if counts["grid-fractional"] == 3 and fractional(inp) else None)
         emit(inp, viols)
     t0 = time.time()
     for inp in pipeline_inputs(tier, seed):
@@ -463,24 +517,35 @@ def run(tier, seed):
             skipped["pipeline: " + skip] = skipped.get("pipeline: " + skip, 0) + 1
             continue
         counts["pipeline"] += 1
+        counts["pipeline-fractional"] += int(fractional(inp))
         rec.case(key=_key(inp), nontrivial=nontrivial,
                  sample={"kind": "pipeline", "pipeline": describe(inp["pipeline"]), "shape": list(np.shape(inp["left"])),
-                         "interval": inp["interval"], "grids": inp["gmin"] is not None} if counts["pipeline"] in (6, 7) else None)
+                         "interval": inp["interval"], "grids": None if inp["gmin"] is None else "fractional" if fractional(inp) else "integer"}
+                 if counts["pipeline"] in (3, 7) else None)
         emit(inp, viols)
     return rec.result(
         bound="A) %d nested interval pairs: every pair inner c outer of the 28 intervals within [-3,3] (182 pairs per input) on random integer image pairs "
               "4..6 x 7..9 (first round 4x7, 5x7 for window 5; values {0,1,3} or 0..15; masks over {0,1,2} in some rounds), sad/ssd/zncc x windows {1,3,5}, "
-              "census x {3,5}, subpix {1,2,4}, with and without cbca; B) %d per-pixel grid inputs (random grids min<=max within [-3,3], one third constant "
-              "grids, half of them followed by cbca) against the scalar global interval; C) %d single-scale pipelines run by pandora.run on 6x9..14x14 "
+              "census x {3,5}, subpix {1,2,4}, with and without cbca; B) %d per-pixel grid inputs against the scalar interval spanning the reported "
+              "disparity axis: random integer grids min<=max within [-3,3] (one third constant grids, half of them followed by cbca) and, on the same "
+              "images, as many float32 grids within [-3.3,3.3] off the sampling step (%d; the 7 kinds of bounded.C02.fractional_grids by turns: constant "
+              "[-1.3,1.7], constant +-[0.x,2.y], both bounds n/4 +- {0.05,0.1}, fractional min with integer max, integer min with fractional max, mixed, "
+              "intervals narrower than a step); C) %d single-scale pipelines run by pandora.run on 6x9..14x14 "
               "images (right image random, left = right moved by a piecewise constant disparity + 8%% outliers, or unrelated), 10 fixed pipelines x 3 then "
               "random ones over measure x window x subpix x {none,cbca} x {none,vfit,quadratic} x {none,median,bilateral} x {none,cross-checking, "
-              "+mc-cnn, +sgm}, scalar intervals cycling over the 28 intervals (4/5) or column-wise grids (1/5), masks in 1/3.  Runs that raised were "
-              "not evaluated: %s" % (counts["slice"], counts["grid"], counts["pipeline"], skipped if skipped else "none"),
+              "+mc-cnn, +sgm}, scalar intervals cycling over the 28 intervals (3/5), column-wise integer grids (1/5) or fractional float32 grids (1/5, %d "
+              "runs: column-wise integer intervals moved by off-step amounts on either side, or fractional_grids), masks in 1/3.  Runs that raised were "
+              "not evaluated: %s" % (counts["slice"], counts["grid"], counts["grid-fractional"], counts["pipeline"], counts["pipeline-fractional"],
+                                     skipped if skipped else "none"),
         rule="seeded with np.random.default_rng(seed); each part stops at its time budget.  A: one evaluation per (input, inner, outer), volumes compared "
              "cell by cell, exactly (NaN-aware, also for zncc and after cbca: the same code runs on the same data); non-trivial = the inner volume has a finite "
-             "cost.  B: one evaluation per input; exact comparison inside each pixel's interval (not after cbca unless the grids are constant), NaN required "
-             "outside; non-trivial = some finite cost and (constant grids or some cell outside a pixel's interval).  C: one evaluation per pipeline run; "
-             "valid = validity_mask & 0b01111000011 == 0; non-trivial = the final left map has a valid pixel.  distinct = distinct full input")
+             "cost.  B: one evaluation per input; a sample d of the reported axis is inside a pixel's interval iff min(r,c) <= d <= max(r,c) (real-number "
+             "comparison with the float32 grid values); exact comparison inside each pixel's interval (not after cbca unless all pixels have the same "
+             "interval), NaN required outside; for integer grids the axis must be int(min)..int(max), for fractional grids only samples of the scalar axis "
+             "are required; validity mask compared for constant integer grids only; non-trivial = some finite cost and (constant grids or some cell outside a "
+             "pixel's interval).  C: one evaluation per pipeline run; valid = validity_mask & 0b01111000011 == 0; per-pixel and global intervals compared as real "
+             "numbers; stored interval == [first,last] of the cost-volume axis for fractional grids; non-trivial = the final left map has a valid pixel.  "
+             "distinct = distinct full input")
 
 
 def replay(witness):
